@@ -400,12 +400,14 @@ where
 
             // Nothing is happening. We may be the first to start initializing.
             let attempt_signal = Arc::new(ManualResetEvent::new(EventState::Unset));
-            let attempt = RegionalValue::<T>::Initializing(Arc::clone(&attempt_signal));
+            let attempt = Some(Arc::new(RegionalValue::<T>::Initializing(Arc::clone(
+                &attempt_signal,
+            ))));
 
             #[cfg(folo_verif)]
             crate::verif::point("rl.init.cas");
 
-            let previous_value = self.value.compare_and_swap(reader, Some(Arc::new(attempt)));
+            let previous_value = self.value.compare_and_swap(reader, attempt.clone());
 
             if !previous_value.is_none() {
                 // Someone raced ahead of us. Re-enter loop.
@@ -428,7 +430,11 @@ where
             #[cfg(folo_verif)]
             crate::verif::point("rl.init.store");
 
-            self.value.store(Some(Arc::new(new_value)));
+            // We only install the initial value if our marker is still in place. If it is not,
+            // a concurrent `set()` has already stored a value and that value must win - the
+            // initial value is by definition older than anything that has been written.
+            self.value
+                .compare_and_swap(&attempt, Some(Arc::new(new_value)));
 
             // We are done initializing. Notify all waiters that they can continue.
             attempt_signal.set();
